@@ -100,7 +100,9 @@ def rseries(rng, lo=2, hi=40, den=8):
 def random_cases(family, rng, count):
     out = []
     for _ in range(count):
-        xs, ys = rseries(rng)
+        intcase = rng.random() < 0.2       # integer-valued series handed over in integer-typed arrays / lists (bounds stay fractional)
+        first = len(out)
+        xs, ys = rseries(rng, den=1) if intcase else rseries(rng)
         X, Y = [R(v) for v in xs], [R(v) for v in ys]
         n = len(xs)
         span = xs[-1] - xs[0]
@@ -163,6 +165,11 @@ def random_cases(family, rng, count):
             out.append({"fn": "normalize", "axis": "x", "a": X, "other": Y, "lo": R(lo), "hi": R(hi)})
             v = Fraction(rng.choice([-1, 1]) * rng.randint(1, 64), 8)
             out.append({"fn": "shiftscale", "x": X, "y": Y, "op": rng.choice(["shift_x", "shift_y", "scale_x", "scale_y"]), "v": R(v)})
+        if intcase:
+            for k in out[first:]:
+                if k["fn"] in ("truncate", "slice_value", "slice_index", "truncate_index", "normalize", "shiftscale", "linear_trend") \
+                        and "container" not in k and all(r[1] == 1 for r in k.get("x", k.get("a"))):
+                    k["container"] = rng.choice(["int", "int32", "list"])
     # the same requests far from the origin of the time axis (epoch seconds, 2^40): an exact translation, see fnexec.xoff
     for k in out:
         if k["fn"] in ("truncate", "slice_value", "repeat", "interp") and rng.random() < 0.15 \
